@@ -13,6 +13,14 @@ CLAIMED = {
         "shapes are validated against those same actions by TLC (Trace_C01).",
    note="Trusts TLC and the JSON projection (ints / kind strings). Universe bounds: see evidence; larger shapes only via traces.",
    ref="5 C01"),
+ "C03": dict(
+   text="TLC exhaustively explores ravel / wind behaviours (depth 3-4) over every dimension permutation of the bounded "
+        "layouts and checks that every value keeps its (extra-index, cell) address, other dimensions keep their order, "
+        "grid dimensions come back in convention order and gridless variables are refused; recorded Convention.ravel / "
+        "wind / utils.ravel_dimensions / wind_dimension calls are validated against the same actions (exact dims, shape, "
+        "values, dtype) and against the declarative addressing clause by TLC (Trace_C03).",
+   note="Values are integer tags; a supplied linear name equal to a remaining dimension is outside the quantifier.",
+   ref="5 C03"),
 }
 PENDING_REASON = "check not built yet in this round (specification and binding under construction; see DESIGN.md section 13)"
 props = [json.loads(l) for l in (V / "properties.jsonl").read_text().splitlines() if l.strip()]
